@@ -1,25 +1,44 @@
 ------------------------- MODULE EffectConflictsEnum -------------------------
-(* G1 generator for C24.  Writes (ndjson)                                     *)
+(* G1 generator for C24 (instantiate with Level = 2, NT = 2: the largest      *)
+(* universe; the groups below are sub-universes of it).  Writes (ndjson)      *)
 (*  TABLE : the universe of calls, one row per index, with the flags the      *)
 (*          driver needs to build them (which containers offer the call,      *)
-(*          whether it is a probe candidate);                                 *)
-(*  OUT   : every call history of length L over that universe, per container, *)
-(*          as sequences of indices into the table.  All permutations of all  *)
-(*          multisets of L calls are exactly all sequences of length L.       *)
+(*          whether it is a probe candidate, whether it is in the core        *)
+(*          universe, the fluents a simulated effect writes);                 *)
+(*  OUT   : for every group, every call history of length L over the group's  *)
+(*          sub-universe, per container, as sequences of indices into the     *)
+(*          table.  All permutations of all multisets of L calls are exactly  *)
+(*          all sequences of length L.                                        *)
 EXTENDS EffectConflicts, Json, IOUtils, SequencesExt
-CONSTANTS L,      \* history length
-          CSet    \* containers to emit histories for
+CONSTANTS Groups   \* sequence of [name, lvl, nt, L, cs]
 
+All3 == {"ia", "da", "pb"}
+Timed == {"da", "pb"}
+GroupsQuick == <<
+   [name |-> "full-L2",     lvl |-> 2, nt |-> 1, L |-> 2, cs |-> All3],
+   [name |-> "core-L3",     lvl |-> 1, nt |-> 1, L |-> 3, cs |-> All3],
+   [name |-> "core-2tp-L2", lvl |-> 1, nt |-> 2, L |-> 2, cs |-> Timed] >>
+GroupsThorough == <<
+   [name |-> "full-L3",     lvl |-> 2, nt |-> 1, L |-> 3, cs |-> All3],
+   [name |-> "core-L4",     lvl |-> 1, nt |-> 1, L |-> 4, cs |-> All3],
+   [name |-> "full-2tp-L2", lvl |-> 2, nt |-> 2, L |-> 2, cs |-> Timed],
+   [name |-> "core-2tp-L3", lvl |-> 1, nt |-> 2, L |-> 3, cs |-> Timed] >>
+GroupsNone == << >>
+
+IsCore(o) == [o EXCEPT !.t = 1] \in Core1
 Row(i) == LET o == Universe[i] IN
           [idx |-> i, k |-> o.k, fl |-> o.fl, v |-> o.v, c |-> o.c, s |-> o.s, t |-> o.t,
            sf |-> SetToSeq(SimFl(o.s)),          \* fluents written by the simulated effect (<<>> for effects)
-           probe |-> (o \in ProbeSet),
+           probe |-> (o \in ProbeSet), core |-> IsCore(o),
            ia |-> Supports("ia", o), da |-> Supports("da", o), pb |-> Supports("pb", o)]
 Table == [i \in 1..NU |-> Row(i)]
 
-Offered(cn) == {i \in 1..NU : Supports(cn, Universe[i])}
-Histories == UNION {{[c |-> cn, ops |-> h] : h \in [1..L -> Offered(cn)]} : cn \in CSet}
+Offered(g, cn) == {i \in 1..NU : LET o == Universe[i] IN
+                      Supports(cn, o) /\ o.t <= g.nt /\ (g.lvl = 2 \/ IsCore(o))}
+HistoriesOf(g) == UNION {{[g |-> g.name, nt |-> g.nt, c |-> cn, ops |-> h] : h \in [1..g.L -> Offered(g, cn)]} : cn \in g.cs}
+Histories == UNION {HistoriesOf(Groups[j]) : j \in DOMAIN Groups}
 
+ASSUME Level = 2 /\ NT = 2
 ASSUME ndJsonSerialize(IOEnv.TABLE, Table)
 ASSUME ndJsonSerialize(IOEnv.OUT, SetToSeq(Histories))
 ASSUME PrintT(<<"EMITTED", NU, Cardinality(Histories)>>)
